@@ -67,19 +67,19 @@ static void items_case(int which) {
 int main(int argc, char** argv) {
     if (argc < 5) return 2;
     TR.open(argv[1]); std::string mode = argv[2]; int nseeds = atoi(argv[3]); unsigned long seed0 = strtoul(argv[4], nullptr, 10);
-    long paths = 0, steps = 0, stuck = 0; vh::Timer tm; static const int dens[4] = {1, 3, 10, 40};
+    long paths = 0, steps = 0, stuck = 0; vh::Timer tm; static const int dens[8] = {1, 3, 10, 40, -1, -2, -3, -5};
     auto exec = [&](unsigned long seed, int den, const std::function<void()>& fn) { TR.begin_exec(); Result r = run_in_arena(3, seed, den, 8000000, fn, false); ++paths; steps += r.steps; if (r.rc) ++stuck; };
     if (mode == "r1d") {
         u64 sizes[] = {0, 1, 2, 3, 5, 7, 8, 9, 13, 16, 17, 31, 33}; u64 grains[] = {1, 2, 3, 5, 8};
-        for (int s = 0; s < nseeds; s++) for (u64 n : sizes) for (u64 g : grains) for (int p = 0; p < 4; p++) { if (stuck >= 10) break; exec(seed0 + s * 977 + n * 31 + g * 7 + p, dens[(s + p) % 4], [&] { one_1d(p, n, g); }); }
+        for (int s = 0; s < nseeds; s++) for (u64 n : sizes) for (u64 g : grains) for (int p = 0; p < 4; p++) { if (stuck >= 10) break; exec(seed0 + s * 977 + n * 31 + g * 7 + p, dens[(s + p) % 8], [&] { one_1d(p, n, g); }); }
     } else if (mode == "rnd") {
         for (int s = 0; s < nseeds; s++) for (int w = 2; w <= 4; w++) for (int p = 0; p < 3; p++) { if (stuck >= 10) break;
-            exec(seed0 + s * 131 + w * 7 + p, dens[s % 4], [&] { if (p == 0) loopnd(w, "simple", tbb::simple_partitioner()); else if (p == 1) loopnd(w, "auto", tbb::auto_partitioner()); else loopnd(w, "static", tbb::static_partitioner()); }); }
+            exec(seed0 + s * 131 + w * 7 + p, dens[s % 8], [&] { if (p == 0) loopnd(w, "simple", tbb::simple_partitioner()); else if (p == 1) loopnd(w, "auto", tbb::auto_partitioner()); else loopnd(w, "static", tbb::static_partitioner()); }); }
     } else if (mode == "items") {
-        for (int s = 0; s < nseeds; s++) for (int w = 0; w < 4; w++) { if (stuck >= 10) break; exec(seed0 + s * 17 + w, dens[s % 4], [&] { items_case(w); }); }
+        for (int s = 0; s < nseeds; s++) for (int w = 0; w < 4; w++) { if (stuck >= 10) break; exec(seed0 + s * 17 + w, dens[s % 8], [&] { items_case(w); }); }
     } else { // large: sizes beyond 2^24, 2^31, 2^32 with huge grains (few chunks)
         u64 big[] = {(1ull << 24) - 1, (1ull << 24) + 1, (1ull << 31) - 1, (1ull << 31) + 1, (1ull << 32) + 5, (1ull << 40) + 3, ~0ull - 1};
-        for (int s = 0; s < nseeds; s++) for (u64 n : big) for (int p = 0; p < 4; p++) { if (stuck >= 10) break; u64 g = n / (p == 0 ? 13 : 5) + 1; exec(seed0 + s * 53 + p, dens[s % 4], [&] { one_1d(p, n, g); }); }
+        for (int s = 0; s < nseeds; s++) for (u64 n : big) for (int p = 0; p < 4; p++) { if (stuck >= 10) break; u64 g = n / (p == 0 ? 13 : 5) + 1; exec(seed0 + s * 53 + p, dens[s % 8], [&] { one_1d(p, n, g); }); }
     }
     TR.close();
     printf("{\"paths\":%ld,\"steps\":%ld,\"stuck\":%ld,\"wall\":%.2f}\n", paths, steps, stuck, tm.s());
